@@ -18,6 +18,10 @@ Section Mirror.
   Lemma mirror_agrees : forall T, map enc_row (Combos.mirror T) = Pool.mirror (map enc_row T).
   Proof.
     induction T as [|t T IH]; [reflexivity|].
-    unfold Combos.mirror, Pool.mirror in *. cbn [flat_map map app]. rewrite map_app, IH. reflexivity.
+    change (Combos.mirror (t :: T)) with (swap3 t :: t :: Combos.mirror T).
+    change (map enc_row (t :: T)) with (enc_row t :: map enc_row T).
+    change (Pool.mirror (enc_row t :: map enc_row T))
+      with (((snd (fst (enc_row t)), fst (fst (enc_row t))), snd (enc_row t)) :: enc_row t :: Pool.mirror (map enc_row T)).
+    cbn [map]. rewrite IH. reflexivity.
   Qed.
 End Mirror.
